@@ -18,6 +18,7 @@ import (
 	"sort"
 	"strings"
 	"sync"
+	"syscall"
 	"testing"
 	"time"
 
@@ -322,12 +323,35 @@ func Watchdog(d time.Duration, f func()) (ok bool, panicked any) {
 		defer func() { done <- recover() }()
 		f()
 	}()
-	select {
-	case p := <-done:
-		return true, p
-	case <-time.After(d):
-		return false, nil
+	// d is meant as time in which f could work. On a machine with several times more busy processes than cores, d of
+	// wall time can pass with little of it given to this process ("a time budget hit means inconclusive, never a
+	// violation"): f counts as hanging once d has passed and the process has used d/2 of CPU time since f started
+	// (it is computing, not waiting for a core), or once 6*d have passed (it is blocked).
+	start, cpu0 := time.Now(), processCPU()
+	tick := time.NewTicker(100 * time.Millisecond)
+	defer tick.Stop()
+	for {
+		select {
+		case p := <-done:
+			return true, p
+		case <-tick.C:
+			wall := time.Since(start)
+			if wall < d {
+				continue
+			}
+			if processCPU()-cpu0 >= d/2 || wall >= 6*d {
+				return false, nil
+			}
+		}
 	}
+}
+
+func processCPU() time.Duration {
+	var ru syscall.Rusage
+	if err := syscall.Getrusage(syscall.RUSAGE_SELF, &ru); err != nil {
+		return 0
+	}
+	return time.Duration(ru.Utime.Nano() + ru.Stime.Nano())
 }
 
 // Die writes the failing case as the replay file of this shard and exits the process at once. Used when the
